@@ -1,5 +1,6 @@
 import PlzVerif.Lemmas.AspOps
 import PlzVerif.Lemmas.AspOpsPrefix
+import PlzVerif.Lemmas.AspReadOnly
 import PlzVerif.Model.AspInterp
 import PlzVerif.Model.PyInterp
 import PlzVerif.Model.AspGenerated
@@ -11,11 +12,15 @@ C16  The BUILD language agrees with Python on its documented subset.
 
 * full statement `AgreesWithPython`: whenever both evaluate a program, the rendered globals are equal;
 * it does **not** hold for the pinned code: one witness per root cause (each is a known finding whose class
-  predicate is implemented in harness/cmd/c16), and `C16_main_fails`;
-* what does hold, for all inputs: `interpretOps` evaluates exactly the tree `aspGroup` (any state, any operand
-  evaluator); that tree is the Python tree whenever no operator "swallows" — in particular for at most two
-  operators and for non-increasing precedences; and the integer operators agree with Python's except `%` with
-  operands of different sign (and `/`, which has no integer counterpart in Python 3).
+  predicate is implemented in harness/asplib/c16.go), and `C16_main_fails`;
+* three root causes have been repaired in /repo (`%` with Go's sign, `//` through float64, `sorted`/`reversed`
+  in place).  For each: the witness is now a theorem about the model at the *old* fact value (`C16_old_…`), the
+  same program agrees at today's facts (`C16_fixed_…`), and the repaired code path has a theorem for all inputs
+  (`C16_intop_agrees`, `C16_sorted_copies`, `C16_reversed_copies`);
+* what holds of the operator layer, for all inputs: `interpretOps` evaluates exactly the tree `aspGroup` as long as
+  evaluating operands does not change the truthiness of values (`C16_interpretOps_is_tree`; the side condition is
+  needed: `C16_witness_lazy_recheck`); that tree is the Python tree whenever no operator "swallows" — in
+  particular for at most two operators and for non-increasing precedences.
 -/
 namespace PlzVerif.Props.C16
 open PlzVerif.Asp PlzVerif.Generated
@@ -25,30 +30,44 @@ abbrev raw : RawFacts := genRaw
 /-- The asp model at the regenerated facts. -/
 abbrev F : Facts := genF
 
-def knownIntKinds : List String := ["+", "-", "*", "/", "%", "floor(float/float)", "<", ">", "<=", ">=", "==", "!="]
+def knownIntKinds : List String :=
+  ["+", "-", "*", "/", "%", "floormod", "floor(float/float)", "floordiv", "<", ">", "<=", ">=", "==", "!="]
 
 /-- Side condition on the regenerated facts (decidable):
     the precedence table orders the operators as the Python grammar does; `and`/`or` are the lazy operators;
     the token map is the expected one; every integer operator has a shape the model knows, the arithmetic ones
-    being Go's `+ - *`, and `//` going through the float floor. -/
+    being Go's `+ - *`, `%` and `//` the helpers `floorMod` / `floorDiv`; `sorted` and `reversed` work on a copy. -/
 def FactsOK : Bool :=
   precOrderOK F.prec && raw.listAddClips &&
   raw.lazyOps == ["And", "Or"] &&
   raw.operators == expectedTokens &&
   raw.intOps.all (fun e => knownIntKinds.contains e.2) &&
   F.intKind .add == "+" && F.intKind .sub == "-" && F.intKind .mul == "*" &&
-  F.intKind .fdiv == "floor(float/float)" && (F.intKind .mod == "%" || F.intKind .mod == "floormod") &&
-  F.intKind .lt == "<" && F.intKind .gt == ">" && F.intKind .le == "<=" && F.intKind .ge == ">="
+  F.intKind .fdiv == "floordiv" && F.intKind .mod == "floormod" &&
+  F.intKind .lt == "<" && F.intKind .gt == ">" && F.intKind .le == "<=" && F.intKind .ge == ">=" &&
+  !F.sortedInPlace && !F.reversedInPlace &&
+  -- the shape of `interpretOps` that Model/AspOps.lean transcribes: one precedence comparison `ops[0] >= ops[1]`,
+  -- a recursion on `ops[1:]` in each of the three branches, the evaluated rest handed back to `interpretOp`
+  raw.opsCompare == "ops[0] >= ops[1]" && raw.opsRestCalls == 3 && raw.opsRecheck
 
 /-- Obligation a code change can break. -/
 theorem C16_facts_ok : FactsOK = true := by decide
 
 /-! ### The full statement and why it fails today -/
 
-/-- Both evaluators succeed on `p` and render different globals. -/
-def disagree (opt : Bool) (fuel : Nat) (p : Program) : Bool :=
-  match runProgram F opt fuel p, Py.runProgram fuel p with
+/-- Both evaluators succeed on `p` and render different globals (asp model at the facts `F'`). -/
+def disagreeF (F' : Facts) (opt : Bool) (fuel : Nat) (p : Program) : Bool :=
+  match runProgram F' opt fuel p, Py.runProgram fuel p with
   | .ok g, .ok g' => !(g == g')
+  | _, _ => false
+
+/-- … at the facts of this run. -/
+def disagree (opt : Bool) (fuel : Nat) (p : Program) : Bool := disagreeF F opt fuel p
+
+/-- Both evaluators succeed on `p` (so that `disagree … = false` means "same globals", not "one of them failed"). -/
+def bothRun (F' : Facts) (opt : Bool) (fuel : Nat) (p : Program) : Bool :=
+  match runProgram F' opt fuel p, Py.runProgram fuel p with
+  | .ok _, .ok _ => true
   | _, _ => false
 
 /-- C16 at full strength: no program on which both evaluators succeed is rendered differently. -/
@@ -58,10 +77,13 @@ def AgreesWithPython (opt : Bool) : Prop := ∀ (fuel : Nat) (p : Program), disa
 def wOps : Program :=
   [.assign "a" (.chain none (.int 1) [(.sub, none, .int 2), (.mul, none, .int 3), (.sub, none, .int 4)])]
 
-/-- `a = -7 % 3`: asp -1, Python 2 (objects.go:236). -/
+/-- `a = -7 % 3`: was -1 in asp, Python 2 (objects.go, `case Modulo: return i % o`). -/
 def wMod : Program := [.assign "a" (.chain none (.int (-7)) [(.mod, none, .int 3)])]
 
-/-- `l = [3, 1, 2]; s = sorted(l)`: asp reorders `l` (builtins.go:859). -/
+/-- `a = 9007199254740993 // 1`: was 9007199254740992 in asp (objects.go, `math.Floor(float64(i) / float64(o))`). -/
+def wFdiv : Program := [.assign "a" (.chain none (.int 9007199254740993) [(.fdiv, none, .int 1)])]
+
+/-- `l = [3, 1, 2]; s = sorted(l)`: asp used to reorder `l` (builtins.go, `l = l[:]`). -/
 def wSorted : Program :=
   [.assign "l" (.list 1 [.int 3, .int 1, .int 2]), .assign "s" (.call "sorted" [(none, .name "l")])]
 
@@ -87,14 +109,19 @@ def wAppend : Program :=
 def wAug : Program :=
   [.assign "a" (.list 1 [.int 1]), .assign "b" (.name "a"), .augAssign "a" (.list 2 [.int 2])]
 
+/-- `d = {}`, `def f(): d["k"] = 1; return True`, `x = d or f() and 7`: asp gives `x = d` (now `{"k": 1}`), Python
+    7.  `interpretOps` asks `d.IsTruthy()` once before it evaluates the rest of the list and again, through
+    `interpretOp`, afterwards (interpreter.go:633-686). -/
+def wLazy : Program :=
+  [.assign "d" (.dict []),
+   .def_ "f" [] [.idxAssign "d" (.str "k") (.int 1), .ret [.tru]],
+   .assign "x" (.chain none (.name "d") [(.or_, none, .call "f" []), (.and_, none, .int 7)])]
+
 set_option maxRecDepth 100000 in
 theorem C16_witness_ops_swallow : disagree false 50 wOps = true := by decide +kernel
 
 set_option maxRecDepth 100000 in
-theorem C16_witness_mod_sign : disagree false 50 wMod = true := by decide +kernel
-
-set_option maxRecDepth 100000 in
-theorem C16_witness_sorted_in_place : disagree false 50 wSorted = true := by decide +kernel
+theorem C16_witness_lazy_recheck : disagree false 50 wLazy = true := by decide +kernel
 
 set_option maxRecDepth 100000 in
 theorem C16_witness_constant_shared : disagree true 50 wConst = true := by decide +kernel
@@ -108,14 +135,67 @@ theorem C16_witness_add_appends : disagree false 50 wAppend = true := by decide 
 set_option maxRecDepth 100000 in
 theorem C16_witness_augassign_rebinds : disagree false 50 wAug = true := by decide +kernel
 
-/-- The constant-list witness is specific to optimised files: as a package file it agrees. -/
-theorem C16_constant_fresh_in_package_files : disagree false 50 wConst = false := by decide +kernel
+/-- The constant-list witness needs an optimised file: evaluated as a package file, this program agrees (both
+    evaluators run it).  One sample, not a theorem about package files. -/
+theorem C16_sample_constant_fresh_in_package_file :
+    disagree false 50 wConst = false ∧ bothRun F false 50 wConst = true := by decide +kernel
 
 /-- The property as stated does not hold of the pinned code (either kind of file). -/
 theorem C16_main_fails : ¬ AgreesWithPython false ∧ ¬ AgreesWithPython true := by
   constructor
   · intro h; have := h 50 wOps; rw [C16_witness_ops_swallow] at this; cases this
   · intro h; have := h 50 wConst; rw [C16_witness_constant_shared] at this; cases this
+
+/-! ### Repaired root causes: the old witnesses at the old fact values, and the same programs today -/
+
+/-- The facts before `fix: % …`: Go's remainder. -/
+def oldMod : Facts := { F with intKind := fun b => if b == .mod then "%" else F.intKind b }
+/-- The facts before `fix: // …`: the float64 detour. -/
+def oldFdiv : Facts := { F with intKind := fun b => if b == .fdiv then "floor(float/float)" else F.intKind b }
+/-- The facts before `fix: sorted/reversed …`: `l = l[:]`. -/
+def oldSort : Facts := { F with sortedInPlace := true, reversedInPlace := true }
+
+/-- `a = 1 // 0`: the float64 detour produced -2^63 where Python (and the repaired code) raise. -/
+def wFdivZero : Program := [.assign "a" (.chain none (.int 1) [(.fdiv, none, .int 0)])]
+
+set_option maxRecDepth 100000 in
+theorem C16_old_mod_sign : disagreeF oldMod false 50 wMod = true := by decide +kernel
+set_option maxRecDepth 100000 in
+theorem C16_old_floordiv_float : disagreeF oldFdiv false 50 wFdiv = true := by decide +kernel
+set_option maxRecDepth 100000 in
+theorem C16_old_sorted_in_place : disagreeF oldSort false 50 wSorted = true := by decide +kernel
+
+/-- With the float64 detour a zero divisor evaluated (to -2^63); now it is an error, as in Python. -/
+theorem C16_floordiv_zero :
+    (runProgram oldFdiv false 50 wFdivZero).toOption.isSome = true ∧
+    (runProgram F false 50 wFdivZero).toOption.isSome = false ∧
+    (Py.runProgram 50 wFdivZero).toOption.isSome = false := by decide +kernel
+
+set_option maxRecDepth 100000 in
+/-- The three programs agree at today's facts (and both evaluators run them). -/
+theorem C16_fixed_samples :
+    (disagree false 50 wMod = false ∧ bothRun F false 50 wMod = true) ∧
+    (disagree false 50 wFdiv = false ∧ bothRun F false 50 wFdiv = true) ∧
+    (disagree false 50 wSorted = false ∧ bothRun F false 50 wSorted = true) := by decide +kernel
+
+/-- **`sorted` copies** (all heaps, all lists): a successful `sorted(l)` changes the heap by one new array, the
+    result, without spare capacity; every list that existed before the call — `l` included — is untouched. -/
+theorem C16_sorted_copies (a o l c : Nat) (st st' : St) (v : Val)
+    (hr : (callBuiltin F "sorted" [(none, .list false a o l c)]).run st = .ok (v, st')) :
+    ∃ ys, st' = { st with arrays := st.arrays ++ [ys] } ∧ v = .list false st.arrays.length 0 ys.length ys.length :=
+  sorted_copies F (by decide) a o l c st st' v hr
+
+/-- **`reversed` copies**: the new array holds the visible elements of the argument in reverse order. -/
+theorem C16_reversed_copies (a o l c : Nat) (st st' : St) (v : Val)
+    (hr : (callBuiltin F "reversed" [(none, .list false a o l c)]).run st = .ok (v, st')) :
+    ∃ xs, st.arrays[a]? = some xs ∧
+      st' = { st with arrays := st.arrays ++ [((xs.drop o).take l).reverse] } ∧
+      v = .list false st.arrays.length 0 ((xs.drop o).take l).reverse.length ((xs.drop o).take l).reverse.length :=
+  reversed_copies F (by decide) a o l c st st' v hr
+
+-- the hypothesis of both is met: `sorted([3, 1, 2])` succeeds in a heap holding that list
+example : ((callBuiltin F "sorted" [(none, .list false 1 0 3 3)]).run
+    { arrays := [[], [.int 3, .int 1, .int 2]] }).toOption.map (·.1) = some (.list false 2 0 3 3) := by decide +kernel
 
 /-! ### What holds: the operator layer -/
 
@@ -126,10 +206,7 @@ theorem mem_allOps (o : Op) : o ∈ allOps := by
 
 /-- From the decidable table check to the order isomorphism with the Python grammar. -/
 theorem prec_order : ∀ a b : Op, F.prec a ≥ F.prec b ↔ pyPrec a ≥ pyPrec b := by
-  have h : precOrderOK F.prec = true := by
-    have := C16_facts_ok
-    simp only [FactsOK, Bool.and_eq_true] at this
-    exact this.1.1.1.1.1.1.1.1.1.1.1.1.1
+  have h : precOrderOK F.prec = true := by decide
   intro a b
   have := List.all_eq_true.1 (List.all_eq_true.1 h a (mem_allOps a)) b (mem_allOps b)
   have e : decide (F.prec a ≥ F.prec b) = decide (pyPrec a ≥ pyPrec b) := by simpa using this
@@ -139,13 +216,49 @@ theorem prec_order : ∀ a b : Op, F.prec a ≥ F.prec b ↔ pyPrec a ≥ pyPrec
   · intro hab; have : decide (pyPrec a ≥ pyPrec b) = true := decide_eq_true hab
     rw [← e] at this; exact of_decide_eq_true this
 
-/-- **`interpretOps` is tree evaluation of asp's grouping**, for every operator semantics `S` that uses the
-    precedence table of the code and whose truthiness does not depend on the state: any state type, any
-    operand evaluator (side effects included). -/
-theorem C16_interpretOps_is_tree {σ ε V X : Type} (S : OpsSem σ ε V X) (tr : V → Bool)
-    (htr : ∀ s v, S.truthy s v = tr v) (obj : V) (o : OpE X) (rest : List (OpE X)) :
+/-- **`interpretOps` is tree evaluation of asp's grouping**, for every operator semantics `S` (any state type, any
+    operand evaluator, side effects included) in which evaluating operands and strict operators does not change
+    the truthiness of values (`Stable S`).  The side condition cannot be dropped: `C16_witness_lazy_recheck`. -/
+theorem C16_interpretOps_is_tree {σ ε V X : Type} (S : OpsSem σ ε V X) (hS : Stable S)
+    (obj : V) (o : OpE X) (rest : List (OpE X)) :
     interpretOps S obj o rest = evalTree S (aspGroup S.prec (.val obj) o rest) :=
-  interpretOps_eq_evalTree S tr htr obj o rest
+  interpretOps_eq_evalTree_stable S hS obj o rest
+
+/-- The truthiness the model uses looks at nothing but the dict heap. -/
+theorem truthySt_dicts (st st' : St) (h : st'.dicts = st.dicts) (v : Val) : truthySt st' v = truthySt st v := by
+  cases v <;> simp [truthySt, h]
+
+/-- `Stable` for semantics over the model's heap with the model's truthiness (`truthySt`, a dict's answer is read
+    from the heap): enough that operands and strict operators leave the dict heap alone.  (They may allocate and
+    write lists, define functions, bind variables.) -/
+theorem stable_of_dicts_kept {X : Type} (S : OpsSem St String Val X) (ht : S.truthy = truthySt)
+    (hev : ∀ x s v s', (S.ev x).run s = .ok (v, s') → s'.dicts = s.dicts)
+    (hun : ∀ u a s v s', (S.un u a).run s = .ok (v, s') → s'.dicts = s.dicts)
+    (hbin : ∀ b a w s v s', (S.bin b a w).run s = .ok (v, s') → s'.dicts = s.dicts) : Stable S :=
+  ⟨fun x s a s' h v => by rw [ht]; exact truthySt_dicts s s' (hev x s a s' h) v,
+   fun u a s r s' h v => by rw [ht]; exact truthySt_dicts s s' (hun u a s r s' h) v,
+   fun b a w s r s' h v => by rw [ht]; exact truthySt_dicts s s' (hbin b a w s r s' h) v⟩
+
+/-- An instance with the model's state-dependent truthiness: operands are values, the strict operators are the
+    model's comparisons (which read lists from the heap and change nothing). -/
+def cmpSem : OpsSem St String Val Val :=
+  { prec := F.prec, truthy := truthySt, ev := fun x => pure x, un := fun _ _ => fail "no unary operators",
+    bin := fun b a w => if b = .lt ∨ b = .gt then cmpOp F 64 b a w else fail "comparisons only" }
+
+theorem cmpSem_stable : Stable cmpSem := by
+  refine stable_of_dicts_kept cmpSem rfl ?_ ?_ ?_
+  · intro x s v s' h; have := RO_pure x s v s' h; rw [this]
+  · intro u a s v s' h; exact absurd h (fail_run _ s _)
+  · intro b a w s v s' h
+    simp only [cmpSem] at h
+    by_cases hb : b = .lt ∨ b = .gt
+    · simp only [hb, if_true] at h
+      have := (RO_cmp F 64).1 b a w hb s v s' h; rw [this]
+    · simp only [hb, if_false] at h; exact absurd h (fail_run _ s _)
+
+-- its truthiness does depend on the state: the same dict value is falsy in one heap and truthy in another
+example : cmpSem.truthy { dicts := [[]] } (.dict false 0) = false ∧
+    cmpSem.truthy { dicts := [[("k", .int 1)]] } (.dict false 0) = true := by decide
 
 /-- **Partial form of C16 for operator chains**: on a chain of binary operators in which no operator swallows
     (class predicate of the finding `ops-right-operand-swallows-rest` is false) the tree asp evaluates is the
@@ -235,12 +348,12 @@ example : NonIncreasing (X := Nat) F.prec (binFlat [(.mul, 2), (.add, 3), (.lt, 
 
 /-- Evaluation form: with no swallowing operator, running `interpretOps` on the flat list is evaluating the
     Python tree (same state threading, same laziness). -/
-theorem C16_chain_eval_partial {σ ε V X : Type} (S : OpsSem σ ε V X) (hp : S.prec = F.prec) (tr : V → Bool)
-    (htr : ∀ s v, S.truthy s v = tr v) (obj : V) (a : BinOp × X) (l : List (BinOp × X))
+theorem C16_chain_eval_partial {σ ε V X : Type} (S : OpsSem σ ε V X) (hp : S.prec = F.prec)
+    (hS : Stable S) (obj : V) (a : BinOp × X) (l : List (BinOp × X))
     (h : swallows F.prec (binFlat (a :: l)) = false) :
     interpretOps S obj (OpE.bin a.1 a.2) (binFlat l)
       = evalTree S (climb (l.length + 2) (-100) (.val obj) (binChain (a :: l))).1 := by
-  rw [interpretOps_eq_evalTree S tr htr, hp]
+  rw [interpretOps_eq_evalTree_stable S hS, hp]
   have := C16_ops_partial (V := V) (.val obj) (a :: l) h
   obtain ⟨b, x⟩ := a
   simp only [binFlat, aspGroupL, List.length_cons] at this ⊢
@@ -273,18 +386,71 @@ theorem tmod_eq_fmod_same_sign (x y : Int) (h : (0 ≤ x ∧ 0 < y) ∨ (x ≤ 0
       rw [show x = -(-x) by omega, show y = -(-y) by omega, Int.neg_fmod_neg]; simp
     rw [e1, e2, Int.tmod_eq_emod_of_nonneg (by omega), Int.fmod_eq_emod_of_nonneg (-x) (by omega)]
 
-/-- **Partial form of C16 for integer operators**: `+ - * // %` on two ints give Python's value when the result
-    fits 64 bits, the divisor is non-zero and, for `%`, both operands have the same sign. -/
-theorem C16_intop_partial (op : BinOp) (x y : Int) (st : St)
+/-- The repaired `%`: Go's remainder moved to the divisor's sign is Python's floor modulo (all operands). -/
+theorem goFloorMod_eq_fmod (x y : Int) : goFloorMod x y = Int.fmod x y := by
+  unfold goFloorMod
+  rw [Int.fmod_eq_tmod]
+  have hdvd : y ∣ x ↔ Int.tmod x y = 0 := by rw [Int.dvd_iff_tmod_eq_zero]
+  by_cases hd : y ∣ x
+  · have := hdvd.mp hd
+    simp [hd, this]
+  · have hne : Int.tmod x y ≠ 0 := fun h => hd (hdvd.mpr h)
+    simp only [hd, if_false]
+    by_cases hx : 0 ≤ x
+    · have h1 : 0 ≤ Int.tmod x y := Int.tmod_nonneg y hx
+      by_cases hyy : 0 ≤ y
+      · simp [hx, hyy, hne]; omega
+      · simp [hx, hyy, hne]; omega
+    · have h1 : Int.tmod x y ≤ 0 := by
+        have := Int.tmod_nonneg (a := -x) y (by omega)
+        rw [Int.neg_tmod] at this; omega
+      by_cases hyy : 0 ≤ y
+      · simp [hx, hyy, hne]; omega
+      · simp [hx, hyy, hne]
+        have : y.toNat = 0 := Int.toNat_of_nonpos (by omega)
+        omega
+
+/-- The repaired `//`: Go's quotient, one less when inexact with operands of different sign, is Python's floor
+    division (non-zero divisor). -/
+theorem goFloorDiv_eq_fdiv (x y : Int) (hy : y ≠ 0) : goFloorDiv x y = Int.fdiv x y := by
+  unfold goFloorDiv
+  rw [Int.fdiv_eq_tdiv]
+  have hdvd : y ∣ x ↔ Int.tmod x y = 0 := by rw [Int.dvd_iff_tmod_eq_zero]
+  by_cases hd : y ∣ x
+  · have := hdvd.mp hd
+    simp [hd, this]
+  · have hne : Int.tmod x y ≠ 0 := fun h => hd (hdvd.mpr h)
+    have hx0 : x ≠ 0 := fun h => hd (h ▸ Int.dvd_zero y)
+    simp only [hd, if_false]
+    by_cases hx : 0 ≤ x <;> by_cases hyy : 0 ≤ y
+    · have : ¬ x < 0 := by omega
+      have : ¬ y < 0 := by omega
+      simp [*]
+    · have : ¬ x < 0 := by omega
+      have : y < 0 := by omega
+      simp [*]
+    · have : x < 0 := by omega
+      have : ¬ y < 0 := by omega
+      have hs : y.sign = 1 := Int.sign_eq_one_of_pos (by omega)
+      simp [*]
+    · have : x < 0 := by omega
+      have : y < 0 := by omega
+      have hs : y.sign = -1 := Int.sign_eq_neg_one_of_neg (by omega)
+      simp [*]
+
+/-- **C16 for the integer operators** `+ - * // %` on two ints, all operands: asp and Python give the same value
+    whenever that value fits 64 bits (the documented integer type) and the divisor of `//`, `%` is not zero. -/
+theorem C16_intop_agrees (op : BinOp) (x y : Int) (st : St)
     (hop : op = .add ∨ op = .sub ∨ op = .mul ∨ op = .fdiv ∨ op = .mod)
     (hr : inRange (pyArith op x y))
-    (hz : (op = .fdiv ∨ op = .mod) → y ≠ 0)
-    (hs : op = .mod → (0 ≤ x ∧ 0 < y) ∨ (x ≤ 0 ∧ y < 0)) :
+    (hz : (op = .fdiv ∨ op = .mod) → y ≠ 0) :
     (intOp F op x (.int y)).run st = .ok (.int (pyArith op x y), st) ∧
     (Py.binOp op (.int x) (.int y)).run (σ := Py.St) {} = .ok (.int (pyArith op x y), {}) := by
-  have hk := C16_facts_ok
-  simp only [FactsOK, Bool.and_eq_true, Bool.or_eq_true, beq_iff_eq] at hk
-  obtain ⟨⟨⟨⟨⟨⟨⟨⟨⟨_, hadd⟩, hsub⟩, hmul⟩, hfdiv⟩, hmod⟩, _⟩, _⟩, _⟩, _⟩ := hk
+  have hadd : F.intKind .add = "+" := by decide
+  have hsub : F.intKind .sub = "-" := by decide
+  have hmul : F.intKind .mul = "*" := by decide
+  have hfdiv : F.intKind .fdiv = "floordiv" := by decide
+  have hmod : F.intKind .mod = "floormod" := by decide
   rcases hop with rfl | rfl | rfl | rfl | rfl
   · constructor
     · have hr' : inRange (x + y) := hr
@@ -300,20 +466,37 @@ theorem C16_intop_partial (op : BinOp) (x y : Int) (st : St)
     · simp [Py.binOp, Py.asInt, pyArith, StateT.run, pure, StateT.pure, Except.pure]
   · have hy : y ≠ 0 := hz (Or.inl rfl)
     constructor
-    · simp [intOp, hfdiv, goIntBin, pyArith, intFloorDiv, hy, StateT.run, pure, StateT.pure, Except.pure]
+    · have hr' : inRange (Int.fdiv x y) := hr
+      simp [intOp, hfdiv, goIntBin, pyArith, hy, goFloorDiv_eq_fdiv x y hy, wrap64_id _ hr', StateT.run, pure,
+        StateT.pure, Except.pure]
     · simp [Py.binOp, Py.asInt, pyArith, hy, StateT.run, pure, StateT.pure, Except.pure]
   · have hy : y ≠ 0 := hz (Or.inr rfl)
-    have hsame := hs rfl
     constructor
-    · rcases hmod with hm | hm
-      · simp [intOp, hm, goIntBin, pyArith, hy, tmod_eq_fmod_same_sign x y hsame, StateT.run, pure, StateT.pure, Except.pure]
-      · -- the table does not say "floormod" today; kept so that a corrected `%` re-proves
-        have : F.intKind .mod = "%" := by decide
-        rw [this] at hm; exact absurd hm (by decide)
+    · simp [intOp, hmod, goIntBin, pyArith, hy, goFloorMod_eq_fmod, StateT.run, pure, StateT.pure, Except.pure]
     · simp [Py.binOp, Py.asInt, pyArith, hy, StateT.run, pure, StateT.pure, Except.pure]
 
--- non-vacuity: 17 % 5 and -17 % -5 meet the hypotheses; -7 % 3 (the witness) does not
-example : inRange (pyArith .mod 17 5) ∧ ((0:Int) ≤ 17 ∧ (0:Int) < 5) := by
+-- non-vacuity, on the operands of the old witnesses: -7 % 3 and 9007199254740993 // 1 meet the hypotheses
+example : inRange (pyArith .mod (-7) 3) ∧ inRange (pyArith .fdiv 9007199254740993 1) := by
   unfold inRange pyArith; decide
+
+/-- A zero divisor is an error on both sides. -/
+theorem C16_intop_zero (op : BinOp) (hop : op = .fdiv ∨ op = .mod) (x : Int) (st : St) :
+    (∃ e, (intOp F op x (.int 0)).run st = .error e) ∧
+    (∃ e, (Py.binOp op (.int x) (.int 0)).run (σ := Py.St) {} = .error e) := by
+  have hfdiv : F.intKind .fdiv = "floordiv" := by decide
+  have hmod : F.intKind .mod = "floormod" := by decide
+  rcases hop with rfl | rfl
+  · exact ⟨⟨_, by simp [intOp, hfdiv, goIntBin, fail, StateT.run, throw, throwThe, MonadExceptOf.throw, StateT.lift, bind, Except.bind]; rfl⟩,
+      ⟨_, by simp [Py.binOp, Py.asInt, StateT.run]; rfl⟩⟩
+  · exact ⟨⟨_, by simp [intOp, hmod, goIntBin, fail, StateT.run, throw, throwThe, MonadExceptOf.throw, StateT.lift, bind, Except.bind]; rfl⟩,
+      ⟨_, by simp [Py.binOp, Py.asInt, StateT.run]; rfl⟩⟩
+
+/-- The float64 detour that `//` used to take, on small operands: exact (it went wrong beyond 2^53 —
+    `C16_old_floordiv_float` — and on a zero divisor).  Exhaustive over |x|, |y| ≤ 40. -/
+def smallInts : List Int := (List.range 81).map fun (a : Nat) => (a : Int) - 40
+
+theorem C16_old_floordiv_small :
+    smallInts.all (fun x => smallInts.all fun y => y == 0 || intFloorDiv x y == Int.fdiv x y) = true := by
+  decide +kernel
 
 end PlzVerif.Props.C16
